@@ -4,9 +4,9 @@
    Part T3: statements and code lines (cwrap, cstmt, ccode), texts (ctext), attributes (cattrs).
    Part T4: nodes (cnode, all kinds, threading the compile state) and compile.
    The domain [node_dom] excludes exactly: a float literal whose text is not a number (the model's JNumF
-   carries arbitrary bytes), a template literal whose literal parts hold a double quote, backslash or line
-   feed, a buffered string literal ending in "{" (F-C06-f) and an element name ending in "{"; each of the
-   four is forced ([lexer_seam_refuted]). *)
+   carries arbitrary bytes) and an element name ending in "{"; both are forced ([lexer_seam_refuted]).
+   Before the repairs F-C06-f (buffered string literal ending in "{") and F-C01-h (template literal with a
+   double quote in a literal part) two more exclusions were forced ([lexer_seam_unrepaired_refuted]). *)
 From PV Require Import Base.Bytes Base.Escape Js.Ast Tmpl.IR Tmpl.Lexer Pug.Ast Pug.Compile Gen.Tables Gen.OpsTable
   Proofs.C06Proofs Proofs.C06SeamProofs.
 
@@ -268,16 +268,11 @@ Definition numf_char (c : ascii) : bool :=
 Definition numf_ok (t : bytes) : bool :=
   forallb numf_char t && match rev t with c :: _ => is_ident_char c | [] => false end.
 
-(* the literal parts of a template literal hold no double quote, backslash or line feed (they are spliced
-   into a "..." literal of the action as they are) *)
-Definition tclean (c : ascii) : bool :=
-  negb (Ascii.eqb c DQ) && negb (Ascii.eqb c BSL) && negb (Ascii.eqb c LF).
-
-(* the expressions covered: float texts are numbers, template literals have clean literal parts *)
+(* the expressions covered: all; float texts are numbers *)
 Fixpoint expr_dom (e : jexpr) : bool :=
   match e with
   | JNumF t => numf_ok t
-  | JTpl parts => forallb (fun p => match p with inl s => forallb tclean s | inr x => expr_dom x end) parts
+  | JTpl parts => forallb (fun p => match p with inl _ => true | inr x => expr_dom x end) parts
   | JArr es | JSeq es => forallb expr_dom es
   | JObj kvs => forallb (fun kv => expr_dom (snd kv)) kvs
   | JDot l _ => expr_dom l
@@ -359,62 +354,6 @@ Proof. apply (solid_end_app [c]). Qed.
 Ltac se_lit := first [reflexivity | apply solid_end_cons; se_lit | apply solid_end_app; se_lit].
 Ltac paren := apply etext_parens; [ab | reflexivity | se_lit].
 
-(* ---- strings.Replace(result, `""`, ``, -1) on an action text ------------------------------------------ *)
-Definition DD : bytes := [DQ; DQ].
-Definition Rep (s : bytes) : bytes := replace_all DD [] s.
-
-Lemma Rep_nil : Rep [] = [].
-Proof. apply replace_all_nil. Qed.
-Lemma Rep_match r : Rep (DQ :: DQ :: r) = Rep r.
-Proof. unfold Rep. change (DQ :: DQ :: r) with (DD ++ r). rewrite replace_all_match by discriminate. reflexivity. Qed.
-Lemma Rep_skip1 c r : Ascii.eqb c DQ = false -> Rep (c :: r) = c :: Rep r.
-Proof.
-  intros H. unfold Rep. apply replace_all_skip. unfold DD. cbn [prefixb].
-  rewrite Ascii.eqb_sym, H. reflexivity.
-Qed.
-Lemma Rep_skip2 r : hd_is DQ r = false -> Rep (DQ :: r) = DQ :: Rep r.
-Proof.
-  intros H. unfold Rep. apply replace_all_skip. unfold DD. cbn [prefixb].
-  replace (Ascii.eqb DQ DQ) with true by reflexivity.
-  destruct r as [|b r']; [reflexivity|]. cbn [hd_is] in H. rewrite Ascii.eqb_sym, H. reflexivity.
-Qed.
-Lemma Rep_pass v : forall rest, containsb DD v = false -> hd_is DQ rest = false -> Rep (v ++ rest) = v ++ Rep rest.
-Proof.
-  induction v as [|c v IH]; intros rest Hc Hr; [reflexivity|].
-  rewrite containsb_cons in Hc. apply orb_false_iff in Hc. destruct Hc as [Hp Hv].
-  cbn [app]. destruct (Ascii.eqb c DQ) eqn:Ec.
-  - apply Ascii.eqb_eq in Ec. subst c. rewrite Rep_skip2; [rewrite IH by assumption; reflexivity|].
-    destruct v as [|b v']; [exact Hr|]. cbn [app hd_is].
-    unfold DD in Hp. cbn [prefixb] in Hp. replace (Ascii.eqb DQ DQ) with true in Hp by reflexivity.
-    rewrite Ascii.eqb_sym. destruct (Ascii.eqb DQ b); [discriminate Hp|reflexivity].
-  - rewrite Rep_skip1 by exact Ec. rewrite IH by assumption. reflexivity.
-Qed.
-Lemma Rep_snoc_len c : Ascii.eqb c DQ = false -> forall n Y, length Y <= n -> Rep (Y ++ [c]) = Rep Y ++ [c].
-Proof.
-  intros Hc. induction n as [|n IH]; intros Y Hn.
-  - destruct Y; [|simpl in Hn; lia]. cbn [app]. rewrite Rep_skip1, Rep_nil by exact Hc. reflexivity.
-  - destruct Y as [|a Y']; [cbn [app]; rewrite Rep_skip1, Rep_nil by exact Hc; reflexivity|].
-    simpl in Hn. cbn [app]. destruct (Ascii.eqb a DQ) eqn:Ea.
-    + apply Ascii.eqb_eq in Ea. subst a. destruct Y' as [|b Y''].
-      * cbn [app]. rewrite Rep_skip2 by (cbn [hd_is]; exact Hc). rewrite Rep_skip1, Rep_nil by exact Hc.
-        rewrite Rep_skip2, Rep_nil by reflexivity. reflexivity.
-      * cbn [app]. simpl in Hn. destruct (Ascii.eqb b DQ) eqn:Eb.
-        -- apply Ascii.eqb_eq in Eb. subst b. rewrite !Rep_match. apply IH. lia.
-        -- rewrite !Rep_skip2 by (cbn [hd_is]; exact Eb).
-           change (b :: Y'' ++ [c]) with ((b :: Y'') ++ [c]). rewrite IH by (simpl; lia). reflexivity.
-    + rewrite !Rep_skip1 by exact Ea. rewrite IH by lia. reflexivity.
-Qed.
-Lemma Rep_snoc Y c : Ascii.eqb c DQ = false -> Rep (Y ++ [c]) = Rep Y ++ [c].
-Proof. intros H. apply (Rep_snoc_len c H (length Y)). lia. Qed.
-
-Lemma tclean_parts c : tclean c = true -> Ascii.eqb c DQ = false /\ Ascii.eqb c BSL = false /\ Ascii.eqb c LF = false.
-Proof.
-  unfold tclean. intros H. apply andb_true_iff in H. destruct H as [H H3]. apply andb_true_iff in H. destruct H as [H1 H2].
-  apply negb_true_iff in H1, H2, H3. auto.
-Qed.
-Lemma arun_true_clean c x : tclean c = true -> arun true (c :: x) = arun true x.
-Proof. intros H. destruct (tclean_parts c H) as (H1 & H2 & H3). cbn [arun]. rewrite H2, H1, H3. reflexivity. Qed.
-
 Section Carg.
   Variable funcs : list bytes.
 
@@ -494,25 +433,20 @@ Section Carg.
   Proof. reflexivity. Qed.
 
   Definition tpl_f :=
-    fix go (ps : list (bytes + jexpr)) : option (bytes * list targ) :=
+    fix go (lit : bytes) (ps : list (bytes + jexpr)) : option (bytes * list targ) :=
       match ps with
-      | [] => Some ([], [])
-      | inl s :: r =>
-        match go r with
-        | Some (t, a) => Some (s ++ t, match s with [] => a | _ => AStr s :: a end)
-        | None => None
-        end
+      | [] => match qlit lit with Some q => Some (q, lit_arg lit) | None => None end
+      | inl s :: r => go (lit ++ s) r
       | inr x :: r =>
-        match carg funcs true x, go r with
-        | Some (xt, Some xa), Some (t, a) =>
-          if containsb (B """""") xt then None else Some (B """ " ++ xt ++ B " """ ++ t, xa :: a)
-        | _, _ => None
+        match qlit lit, carg funcs true x, go [] r with
+        | Some q, Some (xt, Some xa), Some (t, a) => Some (q ++ sp ++ xt ++ sp ++ t, lit_arg lit ++ xa :: a)
+        | _, _, _ => None
         end
       end.
   Lemma carg_tpl dot parts :
     carg funcs dot (JTpl parts) =
-    match tpl_f parts with
-    | Some (t, a) => Some (replace_all (B """""") [] (B "(__str """ ++ t ++ B """)"), Some (call (B "__str") a))
+    match tpl_f [] parts with
+    | Some (t, a) => Some (B "(__str " ++ t ++ B ")", Some (call (B "__str") a))
     | None => None
     end.
   Proof. reflexivity. Qed.
@@ -558,62 +492,29 @@ Section Carg.
       pose proof (IH Hdr _ _ eq_refl) as Hts. destruct (ident_word k Ek) as [Hk _]. ab.
   Qed.
 
-  (* the text between the quotes of (__str "...") after the clean-up, entered right after the opening quote
-     (first statement) or with a non-empty literal part already copied (second) *)
+  (* the arguments of (__str ...): quoted literal parts and compiled code parts *)
   Definition tpl_part_dom (p : bytes + jexpr) : bool :=
-    match p with inl s => forallb tclean s | inr x => expr_dom x end.
+    match p with inl _ => true | inr x => expr_dom x end.
+  Lemma qlit_run lit q : qlit lit = Some q -> arun false q = Some false.
+  Proof.
+    destruct lit as [|c l]; cbn [qlit]; intros H; [inversion H; reflexivity|].
+    exact (proj1 (goquote_etext _ _ H)).
+  Qed.
   Lemma tpl_run parts :
     Forall (fun p => match p with inr x => PE x | inl _ => True end) parts ->
-    forallb tpl_part_dom parts = true -> forall t a, tpl_f parts = Some (t, a) ->
-    (forall rest k, hd_is DQ rest = false -> arun false (Rep rest) = Some k ->
-                    arun false (Rep (DQ :: t ++ DQ :: rest)) = Some k) /\
-    (forall rest k, hd_is DQ rest = false -> arun false (Rep rest) = Some k ->
-                    arun true (Rep (t ++ DQ :: rest)) = Some k).
+    forallb tpl_part_dom parts = true -> forall lit t a, tpl_f lit parts = Some (t, a) -> arun false t = Some false.
   Proof.
-    induction 1 as [|p r Hp Hr IH]; intros Hd t a H.
-    - cbn in H. inversion H; subst. split; intros rest k Hh Hk; cbn [app].
-      + rewrite Rep_match. exact Hk.
-      + rewrite Rep_skip2 by exact Hh. cbn [arun]. replace (Ascii.eqb DQ BSL) with false by reflexivity.
-        replace (Ascii.eqb DQ DQ) with true by reflexivity. exact Hk.
+    induction 1 as [|p r Hp Hr IH]; intros Hd lit t a H.
+    - cbn [tpl_f] in H. destruct (qlit lit) as [q|] eqn:Eq; [|discriminate]. inversion H; subst.
+      exact (qlit_run _ _ Eq).
     - cbn [forallb] in Hd. apply andb_true_iff in Hd. destruct Hd as [Hd1 Hd2].
-      cbn [tpl_f] in H. fold tpl_f in H. destruct p as [s|x].
-      + destruct (tpl_f r) as [[t' a']|] eqn:Er; [|discriminate]. inversion H; subst. clear H.
-        destruct (IH Hd2 _ _ eq_refl) as [A' B']. cbn [tpl_part_dom] in Hd1.
-        assert (Bs : forall s, forallb tclean s = true -> forall rest k, hd_is DQ rest = false ->
-                     arun false (Rep rest) = Some k -> arun true (Rep ((s ++ t') ++ DQ :: rest)) = Some k).
-        { clear -B'. induction s as [|c s IHs]; intros Hs rest k Hh Hk; [exact (B' rest k Hh Hk)|].
-          cbn [forallb] in Hs. apply andb_true_iff in Hs. destruct Hs as [Hc Hs].
-          cbn [app]. rewrite Rep_skip1 by exact (proj1 (tclean_parts c Hc)).
-          rewrite arun_true_clean by exact Hc. exact (IHs Hs rest k Hh Hk). }
-        split; [|exact (Bs s Hd1)].
-        intros rest k Hh Hk. destruct s as [|c s']; [exact (A' rest k Hh Hk)|].
-        pose proof Hd1 as Hs. cbn [forallb] in Hs. apply andb_true_iff in Hs. destruct Hs as [Hc _].
-        rewrite Rep_skip2 by (cbn [app hd_is]; exact (proj1 (tclean_parts c Hc))).
-        cbn [arun]. replace (Ascii.eqb DQ DQ) with true by reflexivity.
-        exact (Bs (c :: s') Hd1 rest k Hh Hk).
-      + cbn [tpl_part_dom] in Hd1.
-        destruct (carg funcs true x) as [[xt [xa|]]|] eqn:Ex; try discriminate.
-        destruct (tpl_f r) as [[t' a']|] eqn:Er; [|discriminate].
-        destruct (containsb (B """""") xt) eqn:Ec; [discriminate|]. inversion H; subst. clear H.
-        destruct (IH Hd2 _ _ eq_refl) as [A' _].
-        pose proof (Hp Hd1 _ _ _ Ex) as (Hxt & _ & _).
-        assert (W : forall rest k, hd_is DQ rest = false -> arun false (Rep rest) = Some k ->
-                    arun false (Rep (" "%char :: xt ++ " "%char :: DQ :: t' ++ DQ :: rest)) = Some k).
-        { intros rest k Hh Hk. rewrite Rep_skip1 by reflexivity.
-          rewrite (Rep_pass xt) by (assumption || reflexivity). rewrite Rep_skip1 by reflexivity.
-          cbn [arun]. replace (Ascii.eqb " " DQ) with false by reflexivity. replace (achar " ") with true by reflexivity.
-          apply (arun_app xt _ false false k Hxt). cbn [arun].
-          replace (Ascii.eqb " " DQ) with false by reflexivity. replace (achar " ") with true by reflexivity.
-          exact (A' rest k Hh Hk). }
-        assert (E : forall rest, (B """ " ++ xt ++ B " """ ++ t') ++ DQ :: rest
-                                 = DQ :: " "%char :: xt ++ " "%char :: DQ :: t' ++ DQ :: rest).
-        { intros rest. rewrite <- !app_assoc. reflexivity. }
-        split; intros rest k Hh Hk.
-        * change (DQ :: (B """ " ++ xt ++ B " """ ++ t') ++ DQ :: rest)
-            with (DQ :: ((B """ " ++ xt ++ B " """ ++ t') ++ DQ :: rest)).
-          rewrite E, Rep_match. exact (W rest k Hh Hk).
-        * rewrite E, Rep_skip2 by reflexivity. cbn [arun]. replace (Ascii.eqb DQ BSL) with false by reflexivity.
-          replace (Ascii.eqb DQ DQ) with true by reflexivity. exact (W rest k Hh Hk).
+      cbn [tpl_f] in H. fold tpl_f in H. destruct p as [s|x]; [exact (IH Hd2 _ _ _ H)|].
+      cbn [tpl_part_dom] in Hd1.
+      destruct (qlit lit) as [q|] eqn:Eq; [|discriminate].
+      destruct (carg funcs true x) as [[xt [xa|]]|] eqn:Ex; try discriminate.
+      destruct (tpl_f [] r) as [[t' a']|] eqn:Er; [|discriminate]. inversion H; subst.
+      pose proof (qlit_run _ _ Eq) as Hq. pose proof (Hp Hd1 _ _ _ Ex) as (Hxt & _ & _).
+      pose proof (IH Hd2 _ _ _ Er) as Ht'. ab.
   Qed.
 
   Lemma ident_text_etext dot x : is_ident x = true -> etext (ident_text funcs dot x).
@@ -656,19 +557,9 @@ Section Carg.
     - cbn [carg] in H. destruct (goquote s) as [q|] eqn:Eq; [|discriminate]. inversion H; subst.
       exact (goquote_etext s _ Eq).
     - (* JTpl *)
-      rewrite carg_tpl in H. destruct (tpl_f parts) as [[t a]|] eqn:E; [|discriminate]. apply Some_inj in H.
+      rewrite carg_tpl in H. destruct (tpl_f [] parts) as [[t a]|] eqn:E; [|discriminate]. apply Some_inj in H.
       apply pair_equal_spec in H. destruct H as [<- <-]. cbn [expr_dom] in Hd.
-      destruct (tpl_run parts IHp Hd _ _ E) as [A _].
-      change (replace_all (B """""") [] (B "(__str """ ++ t ++ B """)")) with (Rep (B "(__str " ++ DQ :: t ++ [DQ; ")"%char])).
-      assert (E7 : forall y, Rep (B "(__str " ++ y) = B "(__str " ++ Rep y).
-      { intros y. cbn [B list_ascii_of_string app]. rewrite !Rep_skip1 by reflexivity. reflexivity. }
-      assert (E8 : DQ :: t ++ [DQ; ")"%char] = (DQ :: t ++ [DQ]) ++ [")"%char]).
-      { cbn [app]. rewrite <- app_assoc. reflexivity. }
-      rewrite E7. apply etext_parens.
-      + apply (arun_app (B "(__str ") _ false false false eq_refl).
-        apply A; [reflexivity|]. rewrite Rep_skip1, Rep_nil by reflexivity. reflexivity.
-      + reflexivity.
-      + rewrite E8, Rep_snoc by reflexivity. apply solid_end_app, solid_end_app. reflexivity.
+      pose proof (tpl_run parts IHp Hd _ _ _ E) as Ht. paren.
     - cbn [carg] in H. inversion H; subst. destruct b; (split; [|split]); reflexivity.
     - cbn [carg] in H. inversion H; subst. reflexivity.
     - (* JArr *)
@@ -806,142 +697,6 @@ Proof.
   wfa (B """""").
 Qed.
 
-Section Stmts.
-  Variable funcs : list bytes.
-
-  Lemma wf_wrap_value raw t a : etext t -> wf_toks (wrap_value raw t a).
-  Proof.
-    intros Ht. pose proof Ht as (H1 & H2 & H3). unfold wrap_value. apply wf_one.
-    destruct raw; cbn [esc_suffix].
-    - wfa (t ++ []).
-      + apply good_start_app; [exact H2|exact (solid_end_nonnil _ H3)].
-      + rewrite app_nil_r. lp.
-    - wfa (t ++ B " | __pug__html").
-      apply good_start_app; [exact H2|exact (solid_end_nonnil _ H3)].
-  Qed.
-
-  Lemma wf_wrap_stmt t p : arun false t = Some false -> lastp (endc true) t = true -> wf_toks (wrap_stmt t p).
-  Proof.
-    intros H1 H2. unfold wrap_stmt. apply wf_one. wfa (B " " ++ t). apply lastp_cons. exact H2.
-  Qed.
-
-  (* a code line that is a string literal is written into the template as TEXT: it must not end in "{" *)
-  Definition cwrap_dom (e : jexpr) : bool :=
-    match e with
-    | JStr s => negb (last_is "{" (escape s))
-    | _ => expr_dom e
-    end.
-
-  Lemma cwrap_wf raw e ts : cwrap_dom e = true -> cwrap funcs raw e = Some ts -> wf_toks ts.
-  Proof.
-    intros Hd H. destruct e; cbn [cwrap] in H; cbn [cwrap_dom] in Hd;
-      try (destruct (carg funcs true _) as [[t [a|]]|] eqn:Ec; try discriminate H; inj H;
-           apply wf_wrap_value; exact (carg_some funcs _ _ _ _ Hd Ec)).
-    - (* JNum *) inj H. apply wf_one. exact (nobrace_text_ok _ (show_Z_no_brace z)).
-    - (* JNumF *) inj H. apply wf_one. cbn [expr_dom] in Hd. exact (nobrace_text_ok _ (proj2 (numf_etext _ Hd))).
-    - (* JStr *)
-      destruct (has_delim (escape s)) eqn:Eh; [discriminate|]. inj H. apply wf_one.
-      cbn [wf_tok]. unfold text_ok. rewrite Eh, Hd. reflexivity.
-    - (* JBool *) inj H. apply wf_one. destruct b; reflexivity.
-    - (* JNull *) inj H. apply wf_one. wfa (B "null").
-    - (* JUn *)
-      cbn [expr_dom] in Hd.
-      destruct op;
-        try (destruct (mem (op_name (unop_token _)) runtime_funcs) eqn:Em; [|discriminate]; cbn [negb] in H;
-             destruct (carg funcs true e) as [[t [a|]]|] eqn:Ec; try discriminate H; inj H;
-             pose proof (carg_some funcs _ _ _ _ Hd Ec) as Ht; destruct (runtime_word _ Em) as [Hw Hn];
-             apply wf_one; destruct raw; cbn [esc_suffix];
-             [ match goal with |- wf_tok (TAct (B "{{" ++ ?n ++ sp ++ ?t ++ [] ++ B "}}") _ _ _) => wfa (n ++ sp ++ t ++ []) end
-             | match goal with |- wf_tok (TAct (B "{{" ++ ?n ++ sp ++ ?t ++ ?s ++ B "}}") _ _ _) => wfa (n ++ sp ++ t ++ s) end ];
-             try (rewrite app_nil_r; lp));
-        try discriminate.
-      destruct e; try discriminate.
-      destruct (is_ident x) eqn:Ex; cbn [negb orb] in H; [|discriminate]. destruct (known funcs x); [discriminate|].
-      inj H. destruct (ident_word x Ex) as [Hw Hn].
-      apply wf_wrap_stmt; [ab|lp].
-    - (* JAssign *)
-      destruct op; [discriminate|]. cbn [expr_dom] in Hd. apply andb_true_iff in Hd. destruct Hd as [_ Hd2].
-      destruct e1; try discriminate.
-      + destruct (is_ident x) eqn:Ex; cbn [negb orb] in H; [|discriminate]. destruct (known funcs x); [discriminate|].
-        destruct (carg funcs true e2) as [[t a]|] eqn:Ec; [|discriminate]. inj H.
-        pose proof (carg_or_null funcs _ _ _ _ Hd2 Ec) as Ht. destruct (ident_word x Ex) as [Hw Hn].
-        apply wf_wrap_stmt; [ab|lp].
-      + destruct e1; try discriminate.
-        destruct (is_ident x) eqn:Ex; cbn [negb orb] in H; [|discriminate]. destruct (known funcs x); cbn [negb orb] in H; [discriminate|].
-        destruct (is_ident name) eqn:Ek; cbn [negb orb] in H; [|discriminate].
-        destruct (carg funcs true e2) as [[t a]|] eqn:Ec; [|discriminate]. inj H.
-        pose proof (carg_or_null funcs _ _ _ _ Hd2 Ec) as Ht.
-        destruct (ident_word x Ex) as [Hw Hn]. destruct (ident_word name Ek) as [Hwk Hnk].
-        apply wf_wrap_stmt; [ab|lp].
-    - (* JSeq *) discriminate.
-    - (* JVar *)
-      destruct (is_ident x) eqn:Ex; cbn [negb] in H; [|discriminate]. destruct (ident_word x Ex) as [Hw Hn].
-      cbn [expr_dom] in Hd. destruct init as [i|].
-      + destruct (carg funcs true i) as [[t a]|] eqn:Ec; [|discriminate]. inj H.
-        pose proof (carg_or_null funcs _ _ _ _ Hd Ec) as Ht. apply wf_wrap_stmt; [ab|lp].
-      + inj H. apply wf_wrap_stmt; [ab|lp].
-  Qed.
-
-  Fixpoint stmt_dom (s : jstmt) : bool :=
-    match s with
-    | SExpr e => cwrap_dom e
-    | SVar ds => forallb cwrap_dom ds
-    | SIf c t e => expr_dom c && stmt_dom t && match e with Some x => stmt_dom x | None => true end
-    | SBlock l => forallb stmt_dom l
-    | SOther => true
-    end.
-
-  Lemma cstmt_wf s : forall raw ts, stmt_dom s = true -> cstmt funcs raw s = Some ts -> wf_toks ts.
-  Proof.
-    induction s as [e|ds|c t e IHt IHe|l IHl|] using jstmt_ind2; intros raw ts Hd H; cbn [cstmt] in H; cbn [stmt_dom] in Hd.
-    - exact (cwrap_wf raw e ts Hd H).
-    - revert ts H. induction ds as [|d r IH]; intros ts H.
-      + inj H. constructor.
-      + cbn [forallb] in Hd. apply andb_true_iff in Hd. destruct Hd as [Hd1 Hd2].
-        destruct (cwrap funcs raw d) as [a|] eqn:Ea; [|discriminate].
-        match type of H with match ?g with _ => _ end = _ => destruct g as [b|] eqn:Eb; [|discriminate] end.
-        inj H. apply wf_toks_app; [exact (cwrap_wf _ _ _ Hd1 Ea)|exact (IH Hd2 b eq_refl)].
-    - apply forallb_and3 in Hd. destruct Hd as (Hd1 & Hd2 & Hd3).
-      destruct (carg funcs true c) as [[ct [ca|]]|] eqn:Ec; try discriminate.
-      destruct (cstmt funcs raw t) as [tq|] eqn:Et; [|discriminate].
-      pose proof (IHt raw tq Hd2 Et) as Htq. pose proof (carg_some funcs _ _ _ _ Hd1 Ec) as Hct.
-      assert (Hhead : forall a, wf_tok (TAct (B "{{if " ++ ct ++ B "}}") false false a)) by (intros a; wfa (B "if " ++ ct)).
-      assert (Htail : forall a, wf_tok (TAct (B "{{end}}") false false a)) by (intros a; wfa (B "end")).
-      assert (Helse : forall a, wf_tok (TAct (B "{{else}}") false false a)) by (intros a; wfa (B "else")).
-      assert (Hshort : wf_toks (TAct (B "{{if " ++ ct ++ B "}}") false false (AcIf ([], [[ca]])) :: tq ++ [TAct (B "{{end}}") false false AcEnd])).
-      { constructor; [apply Hhead|]. apply wf_toks_app; [exact Htq|apply wf_one, Htail]. }
-      destruct e as [es|].
-      + destruct (cstmt funcs raw es) as [et|] eqn:Ee; [|discriminate].
-        pose proof (IHe raw et Hd3 Ee) as Het.
-        destruct et as [|e0 et'].
-        * inj H. exact Hshort.
-        * destruct (beqb (show_toks (e0 :: et')) (B "{{null}}")); inj H; [exact Hshort|].
-          constructor; [apply Hhead|]. apply wf_toks_app; [exact Htq|].
-          constructor; [apply Helse|]. apply wf_toks_app; [exact Het|apply wf_one, Htail].
-      + inj H. exact Hshort.
-    - revert ts H. induction IHl as [|d r Hdd Hr IH]; intros ts H.
-      + inj H. constructor.
-      + cbn [forallb] in Hd. apply andb_true_iff in Hd. destruct Hd as [Hd1 Hd2].
-        destruct (cstmt funcs raw d) as [a|] eqn:Ea; [|discriminate].
-        match type of H with match ?g with _ => _ end = _ => destruct g as [b|] eqn:Eb; [|discriminate] end.
-        inj H. apply wf_toks_app; [exact (Hdd _ _ Hd1 Ea)|exact (IH Hd2 b eq_refl)].
-    - discriminate.
-  Qed.
-
-  Lemma ccode_wf debug raw stmts ts :
-    forallb stmt_dom stmts = true -> ccode funcs debug raw stmts = Some ts -> wf_toks ts.
-  Proof.
-    unfold ccode. generalize (Nat.ltb 1 (length stmts)) as many. intros many.
-    revert ts. induction stmts as [|s r IH]; intros ts Hd H.
-    - inj H. constructor.
-    - cbn [forallb] in Hd. apply andb_true_iff in Hd. destruct Hd as [Hd1 Hd2].
-      destruct (cstmt funcs raw s) as [a|] eqn:Ea; [|discriminate].
-      match type of H with match ?g with _ => _ end = _ => destruct g as [b|] eqn:Eb; [|discriminate] end.
-      inj H. apply wf_toks_app; [exact (cstmt_wf _ _ _ Hd1 Ea)|].
-      apply wf_toks_app; [destruct (debug && many); [exact wf_sep|constructor]|exact (IH b Hd2 eq_refl)].
-  Qed.
-End Stmts.
-
 (* ---- a Text node ---------------------------------------------------------------------------------- *)
 (* a pending "{" is always followed by an ordinary byte other than "{" *)
 Definition pend_ok (acc : bytes) (t : list qt) : bool :=
@@ -1002,6 +757,136 @@ Proof.
   { unfold text_toks. rewrite quote_text_rend. apply tt_rend; [apply nf_tokz|lia]. }
   rewrite E. apply ttoks_wf; [apply nf_tokz|reflexivity|reflexivity].
 Qed.
+
+Section Stmts.
+  Variable funcs : list bytes.
+
+  Lemma wf_wrap_value raw t a : etext t -> wf_toks (wrap_value raw t a).
+  Proof.
+    intros Ht. pose proof Ht as (H1 & H2 & H3). unfold wrap_value. apply wf_one.
+    destruct raw; cbn [esc_suffix].
+    - wfa (t ++ []).
+      + apply good_start_app; [exact H2|exact (solid_end_nonnil _ H3)].
+      + rewrite app_nil_r. lp.
+    - wfa (t ++ B " | __pug__html").
+      apply good_start_app; [exact H2|exact (solid_end_nonnil _ H3)].
+  Qed.
+
+  Lemma wf_wrap_stmt t p : arun false t = Some false -> lastp (endc true) t = true -> wf_toks (wrap_stmt t p).
+  Proof.
+    intros H1 H2. unfold wrap_stmt. apply wf_one. wfa (B " " ++ t). apply lastp_cons. exact H2.
+  Qed.
+
+  Lemma cwrap_wf raw e ts : expr_dom e = true -> cwrap funcs raw e = Some ts -> wf_toks ts.
+  Proof.
+    intros Hd H. destruct e; cbn [cwrap] in H;
+      try (destruct (carg funcs true _) as [[t [a|]]|] eqn:Ec; try discriminate H; inj H;
+           apply wf_wrap_value; exact (carg_some funcs _ _ _ _ Hd Ec)).
+    - (* JNum *) inj H. apply wf_one. exact (nobrace_text_ok _ (show_Z_no_brace z)).
+    - (* JNumF *) inj H. apply wf_one. cbn [expr_dom] in Hd. exact (nobrace_text_ok _ (proj2 (numf_etext _ Hd))).
+    - (* JStr *)
+      destruct (ctext (escape s)) as [[|t0 r0]|] eqn:Ec; [| |discriminate]; inj H.
+      + apply wf_one. reflexivity.
+      + exact (ctext_wf _ _ Ec).
+    - (* JBool *) inj H. apply wf_one. destruct b; reflexivity.
+    - (* JNull *) inj H. apply wf_one. wfa (B "null").
+    - (* JUn *)
+      cbn [expr_dom] in Hd.
+      destruct op;
+        try (destruct (mem (op_name (unop_token _)) runtime_funcs) eqn:Em; [|discriminate]; cbn [negb] in H;
+             destruct (carg funcs true e) as [[t [a|]]|] eqn:Ec; try discriminate H; inj H;
+             pose proof (carg_some funcs _ _ _ _ Hd Ec) as Ht; destruct (runtime_word _ Em) as [Hw Hn];
+             apply wf_one; destruct raw; cbn [esc_suffix];
+             [ match goal with |- wf_tok (TAct (B "{{" ++ ?n ++ sp ++ ?t ++ [] ++ B "}}") _ _ _) => wfa (n ++ sp ++ t ++ []) end
+             | match goal with |- wf_tok (TAct (B "{{" ++ ?n ++ sp ++ ?t ++ ?s ++ B "}}") _ _ _) => wfa (n ++ sp ++ t ++ s) end ];
+             try (rewrite app_nil_r; lp));
+        try discriminate.
+      destruct e; try discriminate.
+      destruct (is_ident x) eqn:Ex; cbn [negb orb] in H; [|discriminate]. destruct (known funcs x); [discriminate|].
+      inj H. destruct (ident_word x Ex) as [Hw Hn].
+      apply wf_wrap_stmt; [ab|lp].
+    - (* JAssign *)
+      destruct op; [discriminate|]. cbn [expr_dom] in Hd. apply andb_true_iff in Hd. destruct Hd as [_ Hd2].
+      destruct e1; try discriminate.
+      + destruct (is_ident x) eqn:Ex; cbn [negb orb] in H; [|discriminate]. destruct (known funcs x); [discriminate|].
+        destruct (carg funcs true e2) as [[t a]|] eqn:Ec; [|discriminate]. inj H.
+        pose proof (carg_or_null funcs _ _ _ _ Hd2 Ec) as Ht. destruct (ident_word x Ex) as [Hw Hn].
+        apply wf_wrap_stmt; [ab|lp].
+      + destruct e1; try discriminate.
+        destruct (is_ident x) eqn:Ex; cbn [negb orb] in H; [|discriminate]. destruct (known funcs x); cbn [negb orb] in H; [discriminate|].
+        destruct (is_ident name) eqn:Ek; cbn [negb orb] in H; [|discriminate].
+        destruct (carg funcs true e2) as [[t a]|] eqn:Ec; [|discriminate]. inj H.
+        pose proof (carg_or_null funcs _ _ _ _ Hd2 Ec) as Ht.
+        destruct (ident_word x Ex) as [Hw Hn]. destruct (ident_word name Ek) as [Hwk Hnk].
+        apply wf_wrap_stmt; [ab|lp].
+    - (* JSeq *) discriminate.
+    - (* JVar *)
+      destruct (is_ident x) eqn:Ex; cbn [negb] in H; [|discriminate]. destruct (ident_word x Ex) as [Hw Hn].
+      cbn [expr_dom] in Hd. destruct init as [i|].
+      + destruct (carg funcs true i) as [[t a]|] eqn:Ec; [|discriminate]. inj H.
+        pose proof (carg_or_null funcs _ _ _ _ Hd Ec) as Ht. apply wf_wrap_stmt; [ab|lp].
+      + inj H. apply wf_wrap_stmt; [ab|lp].
+  Qed.
+
+  Fixpoint stmt_dom (s : jstmt) : bool :=
+    match s with
+    | SExpr e => expr_dom e
+    | SVar ds => forallb expr_dom ds
+    | SIf c t e => expr_dom c && stmt_dom t && match e with Some x => stmt_dom x | None => true end
+    | SBlock l => forallb stmt_dom l
+    | SOther => true
+    end.
+
+  Lemma cstmt_wf s : forall raw ts, stmt_dom s = true -> cstmt funcs raw s = Some ts -> wf_toks ts.
+  Proof.
+    induction s as [e|ds|c t e IHt IHe|l IHl|] using jstmt_ind2; intros raw ts Hd H; cbn [cstmt] in H; cbn [stmt_dom] in Hd.
+    - exact (cwrap_wf raw e ts Hd H).
+    - revert ts H. induction ds as [|d r IH]; intros ts H.
+      + inj H. constructor.
+      + cbn [forallb] in Hd. apply andb_true_iff in Hd. destruct Hd as [Hd1 Hd2].
+        destruct (cwrap funcs raw d) as [a|] eqn:Ea; [|discriminate].
+        match type of H with match ?g with _ => _ end = _ => destruct g as [b|] eqn:Eb; [|discriminate] end.
+        inj H. apply wf_toks_app; [exact (cwrap_wf _ _ _ Hd1 Ea)|exact (IH Hd2 b eq_refl)].
+    - apply forallb_and3 in Hd. destruct Hd as (Hd1 & Hd2 & Hd3).
+      destruct (carg funcs true c) as [[ct [ca|]]|] eqn:Ec; try discriminate.
+      destruct (cstmt funcs raw t) as [tq|] eqn:Et; [|discriminate].
+      pose proof (IHt raw tq Hd2 Et) as Htq. pose proof (carg_some funcs _ _ _ _ Hd1 Ec) as Hct.
+      assert (Hhead : forall a, wf_tok (TAct (B "{{if " ++ ct ++ B "}}") false false a)) by (intros a; wfa (B "if " ++ ct)).
+      assert (Htail : forall a, wf_tok (TAct (B "{{end}}") false false a)) by (intros a; wfa (B "end")).
+      assert (Helse : forall a, wf_tok (TAct (B "{{else}}") false false a)) by (intros a; wfa (B "else")).
+      assert (Hshort : wf_toks (TAct (B "{{if " ++ ct ++ B "}}") false false (AcIf ([], [[ca]])) :: tq ++ [TAct (B "{{end}}") false false AcEnd])).
+      { constructor; [apply Hhead|]. apply wf_toks_app; [exact Htq|apply wf_one, Htail]. }
+      destruct e as [es|].
+      + destruct (cstmt funcs raw es) as [et|] eqn:Ee; [|discriminate].
+        pose proof (IHe raw et Hd3 Ee) as Het.
+        destruct et as [|e0 et'].
+        * inj H. exact Hshort.
+        * destruct (beqb (show_toks (e0 :: et')) (B "{{null}}")); inj H; [exact Hshort|].
+          constructor; [apply Hhead|]. apply wf_toks_app; [exact Htq|].
+          constructor; [apply Helse|]. apply wf_toks_app; [exact Het|apply wf_one, Htail].
+      + inj H. exact Hshort.
+    - revert ts H. induction IHl as [|d r Hdd Hr IH]; intros ts H.
+      + inj H. constructor.
+      + cbn [forallb] in Hd. apply andb_true_iff in Hd. destruct Hd as [Hd1 Hd2].
+        destruct (cstmt funcs raw d) as [a|] eqn:Ea; [|discriminate].
+        match type of H with match ?g with _ => _ end = _ => destruct g as [b|] eqn:Eb; [|discriminate] end.
+        inj H. apply wf_toks_app; [exact (Hdd _ _ Hd1 Ea)|exact (IH Hd2 b eq_refl)].
+    - discriminate.
+  Qed.
+
+  Lemma ccode_wf debug raw stmts ts :
+    forallb stmt_dom stmts = true -> ccode funcs debug raw stmts = Some ts -> wf_toks ts.
+  Proof.
+    unfold ccode. generalize (Nat.ltb 1 (length stmts)) as many. intros many.
+    revert ts. induction stmts as [|s r IH]; intros ts Hd H.
+    - inj H. constructor.
+    - cbn [forallb] in Hd. apply andb_true_iff in Hd. destruct Hd as [Hd1 Hd2].
+      destruct (cstmt funcs raw s) as [a|] eqn:Ea; [|discriminate].
+      match type of H with match ?g with _ => _ end = _ => destruct g as [b|] eqn:Eb; [|discriminate] end.
+      inj H. apply wf_toks_app; [exact (cstmt_wf _ _ _ Hd1 Ea)|].
+      apply wf_toks_app; [destruct (debug && many); [exact wf_sep|constructor]|exact (IH b Hd2 eq_refl)].
+  Qed.
+End Stmts.
 
 (* ---- attributes, mixin parameters ------------------------------------------------------------------- *)
 Section Attrs.
@@ -1476,20 +1361,6 @@ Local Transparent replace_all.
 Definition seam_fails (nodes : list pnode) : Prop :=
   exists ts, compile [] false nodes = Some ts /\ segment (show_toks ts) <> Some (map seg_of_tok (lexed ts)).
 
-(* F-C06-f: buffered code whose expression is a string literal ending in "{" (`= "a{"`), followed by code:
-   the literal is written into the template source as text, its brace joins the next action's "{{" *)
-Definition prog_str_brace : list pnode :=
-  [PCode [SExpr (JStr (B "a{"))] true true; PCode [SExpr (JId (B "p"))] true true].
-Example seam_str_brace_refuted :
-  (match compile [] false prog_str_brace with
-   | Some ts => Some (show_toks ts, segment (show_toks ts), map seg_of_tok (lexed ts))
-   | None => None
-   end) =
-  Some (B "a{{{$p | __pug__html}}",
-        Some [SText (B "a"); SAct false (B "{$p | __pug__html") false],
-        [SText (B "a{"); SAct false (B "$p | __pug__html") false]).
-Proof. vm_compute. reflexivity. Qed.
-
 (* an element name ending in "{" with attributes (not a name the pug grammar produces) *)
 Definition prog_name_brace : list pnode :=
   [PTag (B "a{") false [{| pa_name := B "id"; pa_val := JStr (B "x"); pa_esc := true |}] [] []].
@@ -1516,18 +1387,6 @@ Example seam_numf_refuted :
         [SAct false (B " if 1 ") true; SText (B "x"); SAct false (B " end") true]).
 Proof. vm_compute. reflexivity. Qed.
 
-(* a template literal whose literal part holds a double quote (a quote, then ${x}): the quote is spliced into the
-   action unescaped, the string never ends, the lexer reports an error *)
-Definition prog_tpl_quote : list pnode :=
-  [PCode [SExpr (JTpl [inl (B """"); inr (JId (B "x"))])] true true].
-Example seam_tpl_quote_refuted :
-  (match compile [] false prog_tpl_quote with
-   | Some ts => Some (show_toks ts, segment (show_toks ts), map seg_of_tok (lexed ts))
-   | None => None
-   end) =
-  Some (B "{{(__str "" $x ) | __pug__html}}", None, [SAct false (B "(__str "" $x ) | __pug__html") false]).
-Proof. vm_compute. reflexivity. Qed.
-
 Lemma seam_fails_of nodes t s l :
   (match compile [] false nodes with
    | Some ts => Some (show_toks ts, segment (show_toks ts), map seg_of_tok (lexed ts))
@@ -1538,15 +1397,99 @@ Proof.
   intros H Hne. inversion H; subst. exists ts. split; [reflexivity|exact Hne].
 Qed.
 
-(* the four exclusions, each alone: all other conjuncts of node_dom hold *)
-Theorem lexer_seam_refuted :
-  seam_fails prog_str_brace /\ seam_fails prog_name_brace /\ seam_fails prog_numf /\ seam_fails prog_tpl_quote.
+(* the two exclusions, each alone: all other conjuncts of node_dom hold *)
+Theorem lexer_seam_refuted : seam_fails prog_name_brace /\ seam_fails prog_numf.
 Proof.
-  split; [|split; [|split]].
-  - apply (seam_fails_of prog_str_brace _ _ _ seam_str_brace_refuted). intros H; inversion H.
+  split.
   - apply (seam_fails_of prog_name_brace _ _ _ seam_name_brace_refuted). intros H; inversion H.
   - apply (seam_fails_of prog_numf _ _ _ seam_numf_refuted). intros H; inversion H.
-  - apply (seam_fails_of prog_tpl_quote _ _ _ seam_tpl_quote_refuted). intros H; inversion H.
+Qed.
+
+(* a buffered string literal never makes the compiler decline (before the repair it did, for "{{"): its
+   tokens are well-formed and their values, in order, are the escaped literal *)
+Lemma cwrap_str_total funcs raw s :
+  exists ts, cwrap funcs raw (JStr s) = Some ts /\ toks_value ts = Some (escape s) /\ wf_toks ts.
+Proof.
+  cbn [cwrap]. pose proof (ctext_total (escape s)) as Hc. pose proof (toks_value_text (escape s)) as Hv.
+  rewrite Hc. destruct (text_toks (quote_text (escape s))) as [|t0 r0] eqn:Et.
+  - exists [TText []]. split; [reflexivity|]. split; [|apply wf_one; reflexivity].
+    cbn in Hv. inversion Hv as [Hv']. reflexivity.
+  - exists (t0 :: r0). split; [reflexivity|]. split; [exact Hv|]. exact (ctext_wf (escape s) _ Hc).
+Qed.
+
+(* -- why the two repairs were needed ---------------------------------------------------------------- *)
+(* F-C06-f.  The StringLiteral arm of renderExpression (wrap) as it was: the escaped value as one text.
+   `= "a{"` followed by `= p`: the brace of the literal joins the "{{" of the next action *)
+Definition cwrap_str_v0 (s : bytes) : list tok := [TText (escape s)].
+Definition prog_str_brace : list pnode :=
+  [PCode [SExpr (JStr (B "a{"))] true true; PCode [SExpr (JId (B "p"))] true true].
+Example seam_str_brace_unrepaired_refuted :
+  (* the unrepaired arm: the lexer cuts the source differently from the token view *)
+  (match compile [] false [PCode [SExpr (JId (B "p"))] true true] with
+   | Some ts2 => let ts := cwrap_str_v0 (B "a{") ++ ts2 in
+                 Some (show_toks ts, segment (show_toks ts), map seg_of_tok (lexed ts))
+   | None => None
+   end) =
+  Some (B "a{{{$p | __pug__html}}",
+        Some [SText (B "a"); SAct false (B "{$p | __pug__html") false],
+        [SText (B "a{"); SAct false (B "$p | __pug__html") false]) /\
+  (* the repaired arm: the brace is written as the action {{"{"}} *)
+  (match compile [] false prog_str_brace with
+   | Some ts => Some (show_toks ts, segment (show_toks ts), map seg_of_tok (lexed ts))
+   | None => None
+   end) =
+  Some (B "a{{""{""}}{{$p | __pug__html}}",
+        Some [SText (B "a"); SAct false (B """{""") false; SAct false (B "$p | __pug__html") false],
+        [SText (B "a"); SAct false (B """{""") false; SAct false (B "$p | __pug__html") false]).
+Proof. split; vm_compute; reflexivity. Qed.
+
+(* F-C01-h.  interpolate as it was: the literal parts pasted between double quotes, every "" deleted *)
+Definition tpl_text_v0 (funcs : list bytes) (parts : list (bytes + jexpr)) : option bytes :=
+  let go :=
+    fix go (ps : list (bytes + jexpr)) : option bytes :=
+      match ps with
+      | [] => Some []
+      | inl s :: r => match go r with Some t => Some (s ++ t) | None => None end
+      | inr x :: r =>
+        match carg funcs true x, go r with
+        | Some (xt, Some _), Some t => Some (B """ " ++ xt ++ B " """ ++ t)
+        | _, _ => None
+        end
+      end in
+  match go parts with
+  | Some t => Some (replace_all (B """""") [] (B "(__str """ ++ t ++ B """)"))
+  | None => None
+  end.
+Definition prog_tpl_quote : list pnode :=
+  [PCode [SExpr (JTpl [inl (B """"); inr (JId (B "x"))])] true true].
+Example seam_tpl_quote_unrepaired_refuted :
+  (* the unrepaired arm: the quote of the literal part ends the string early, the action does not end *)
+  (match tpl_text_v0 [] [inl (B """"); inr (JId (B "x"))] with
+   | Some t => Some (t, segment (B "{{" ++ t ++ B " | __pug__html}}"))
+   | None => None
+   end) = Some (B "(__str "" $x )", None) /\
+  (* the repaired arm: the parts are written with %q *)
+  (match compile [] false prog_tpl_quote with
+   | Some ts => Some (show_toks ts, segment (show_toks ts), map seg_of_tok (lexed ts))
+   | None => None
+   end) =
+  Some (B "{{(__str ""\"""" $x ) | __pug__html}}",
+        Some [SAct false (B "(__str ""\"""" $x ) | __pug__html") false],
+        [SAct false (B "(__str ""\"""" $x ) | __pug__html") false]).
+Proof. split; vm_compute; reflexivity. Qed.
+
+Theorem lexer_seam_unrepaired_refuted :
+  (exists ts2, compile [] false [PCode [SExpr (JId (B "p"))] true true] = Some ts2 /\
+     segment (show_toks (cwrap_str_v0 (B "a{") ++ ts2)) <> Some (map seg_of_tok (lexed (cwrap_str_v0 (B "a{") ++ ts2)))) /\
+  (exists t, tpl_text_v0 [] [inl (B """"); inr (JId (B "x"))] = Some t /\
+     segment (B "{{" ++ t ++ B " | __pug__html}}") = None) /\
+  forallb node_dom prog_str_brace = true /\ forallb node_dom prog_tpl_quote = true.
+Proof.
+  split; [|split; [|split]].
+  - eexists. split; [vm_compute; reflexivity|]. vm_compute. intros X; inversion X.
+  - eexists. split; [vm_compute; reflexivity|]. vm_compute. reflexivity.
+  - vm_compute. reflexivity.
+  - vm_compute. reflexivity.
 Qed.
 
 (* -- non-vacuity: a mixin definition and call with a block, attributes with a string full of delimiters,
